@@ -1,0 +1,22 @@
+//go:build verif
+
+package types
+
+// Machine-checked contract for the registration of subclasses (see /verif/DESIGN.md, C08).
+// This file contains no declarations: it only carries specification comments
+// that the elkvc verification-condition generator reads.
+
+/*@
+// A class knows its direct subclasses (Children); the compiler binds a call statically only when
+// no known subclass overrides the method.  A class whose superclass is a generic instantiation
+// (`class Circle < Shape[Int]`) is a subclass of the underlying class and must be registered
+// with it: the superclass is found under any number of Generic wrappers.
+spec rec fn baseClass(ns Namespace) *Class = ite(typeis(ns, *Class), ns.(*Class), ite(typeis(ns, *Generic), baseClass(ns.(*Generic).Namespace), nil))
+
+func (*Class).registerAsChild
+  props C08
+  nosafety
+  noterm
+  requires c != nil
+  ensures registered: old(baseClass(parent)) != nil ==> mapHas(old(baseClass(parent)).Children, c)
+@*/
